@@ -103,6 +103,7 @@ Lemma sanity_ok m r : sanity cur m r = Ok tt ->
 Proof.
   unfold sanity. destruct (lookup_tpl m (rec_tid r)) as [[ies ml]|]; [|discriminate].
   destruct (N.eqb_spec (rec_fc r) (u16 (N.of_nat (length ies)))); cbn [negb]; [|discriminate].
+  cbn [cur fx_reclen fx_zerolen]. fold (rec_buffer_e r).
   destruct (rec_buffer_e r) as [[b k]| | |]; cbn [obind]; try discriminate.
   destruct (blen b <? ml); [discriminate|]. cbn [cur fx_encode andb].
   destruct (Nat.eqb_spec k 0); cbn [negb]; [|discriminate]. subst k. intros _. eauto 6.
@@ -149,8 +150,8 @@ Fixpoint hist_ok (W : list (N * N)) (h : list event) (xs : list sent) : Prop :=
 
 Definition no_panic (x : sent) : Prop := r_res x <> Panic.
 
-Lemma send_set_step st s t W :
-  Inv s -> (forall r, In r (s_recs s) -> fc_ok r) -> st_wf st -> on_wire (x_tpls st) W ->
+Lemma send_set_step_m st s t W :
+  InvM s -> (forall r, In r (s_recs s) -> fc_ok r) -> st_wf st -> on_wire (x_tpls st) W ->
   no_panic (send_set cur st s t) ->
   c09_send W s (send_set cur st s t) /\
   on_wire (x_tpls (r_st (send_set cur st s t))) (wire_after W s (send_set cur st s t)) /\
@@ -158,7 +159,7 @@ Lemma send_set_step st s t W :
 Proof.
   intros HI HF HW OW NP. split; [split|].
   - intros k Hk. now apply (send_set_err_nothing st s t k).
-  - intros n Hn. destruct (send_set_ok st s t n HI HW Hn) as [bytes [Hw Hnn _ Hl Hm _ _ _]].
+  - intros n Hn. destruct (send_set_ok_m st s t n HI HW Hn) as [bytes [Hw Hnn _ Hl Hm _ _ _]].
     exists bytes. repeat split; auto. intros Ety.
     (* the checks that let a data set through *)
     unfold send_set in Hn. rewrite Ety in Hn.
@@ -191,6 +192,14 @@ Proof.
       destruct (write_ok _ _); cbn [r_st r_wire x_tpls]; (split; [exact OW|apply W2]).
     + cbn [r_st r_wire]. split; [exact OW|exact HW].
 Qed.
+
+Lemma send_set_step st s t W :
+  Inv s -> (forall r, In r (s_recs s) -> fc_ok r) -> st_wf st -> on_wire (x_tpls st) W ->
+  no_panic (send_set cur st s t) ->
+  c09_send W s (send_set cur st s t) /\
+  on_wire (x_tpls (r_st (send_set cur st s t))) (wire_after W s (send_set cur st s t)) /\
+  st_wf (r_st (send_set cur st s t)).
+Proof. intros H. apply send_set_step_m. now apply Inv_InvM. Qed.
 
 Theorem no_invalid_lemma h : forall st W,
   st_wf st -> on_wire (x_tpls st) W -> Forall no_panic (run_hist cur st h) ->
